@@ -1546,6 +1546,25 @@ func (c *Cluster) loadSegmentBatches(pd *partData, fsys fs, pdir string, base in
 	return result, nil
 }
 
+// truncateStateLog cuts a state log (pids.log, groups.log) back to its valid
+// prefix. New entries are appended behind whatever the file holds, and a
+// reader stops at the first corrupt entry, so entries written behind a torn
+// tail would be acknowledged and then lost on the next load.
+func truncateStateLog(fsys fs, path string, validBytes int, syncW bool) error {
+	f, err := fsys.OpenFile(path, os.O_WRONLY, 0o644)
+	if err != nil {
+		return err
+	}
+	defer f.Close()
+	if err := f.Truncate(int64(validBytes)); err != nil {
+		return err
+	}
+	if syncW {
+		return f.Sync()
+	}
+	return nil
+}
+
 func (c *Cluster) loadPIDsLog(fsys fs, dir string) error {
 	raw, err := fsys.ReadFile(filepath.Join(dir, "pids.log"))
 	if err != nil {
@@ -1559,6 +1578,10 @@ func (c *Cluster) loadPIDsLog(fsys fs, dir string) error {
 	entries, validBytes := readEntries(raw)
 	if validBytes < len(raw) {
 		c.cfg.logger.Logf(LogLevelWarn, "pids.log: discarding %d corrupt trailing bytes", len(raw)-validBytes)
+		if err := truncateStateLog(fsys, filepath.Join(dir, "pids.log"), validBytes, c.cfg.syncWrites); err != nil {
+			return err
+		}
+		c.pidsLogSize.Store(int64(validBytes))
 	}
 	for _, e := range entries {
 		var entry pidLogEntry
@@ -1616,6 +1639,10 @@ func (c *Cluster) loadGroupsLog(fsys fs, dir string) error {
 	entries, validBytes := readEntries(raw)
 	if validBytes < len(raw) {
 		c.cfg.logger.Logf(LogLevelWarn, "groups.log: discarding %d corrupt trailing bytes", len(raw)-validBytes)
+		if err := truncateStateLog(fsys, filepath.Join(dir, "groups.log"), validBytes, c.cfg.syncWrites); err != nil {
+			return err
+		}
+		c.groupsLogSize.Store(int64(validBytes))
 	}
 	r := replayGroupsLog(entries)
 
